@@ -40,13 +40,9 @@ func main() {
 			os.Exit(2)
 		}
 		ds, _ := currentDecls(c.Pkgs)
-		fmt.Println("# declarations of the reference tree: kind (F func/method, V var, C const, T type, S struct field), package, name, type[, field index]")
+		fmt.Println("# declarations of the reference tree: kind (F func/method, V var, C const, T type, S struct field), package, name, type, field index (-1: none), shape hash of the body / initialiser with identifiers erased (tie-breaker)")
 		for _, d := range ds {
-			if d.idx >= 0 {
-				fmt.Printf("%s\t%s\t%s\t%s\t%d\n", d.kind, d.pkg, d.name, d.typ, d.idx)
-			} else {
-				fmt.Printf("%s\t%s\t%s\t%s\n", d.kind, d.pkg, d.name, d.typ)
-			}
+			fmt.Printf("%s\t%s\t%s\t%s\t%d\t%s\n", d.kind, d.pkg, d.name, d.typ, d.idx, d.shape)
 		}
 		return
 	}
